@@ -18,6 +18,8 @@ CODES = {
     4: ("oracle", "the object itself changed class or attributes under an in-place / mutating operation"),
     5: ("oracle", "a profile with ballot validation enabled contains a wrong-typed ballot"),
     6: ("oracle", "copy / deepcopy / pickle round trip / construction from the object raised"),
+    7: ("oracle", "a derived object shares its attribute dictionary or its payload with the object it was derived from "
+                  "(rebinding an attribute / growing one of them changes the other)"),
     10: ("model", "kind of outcome (raised / new object / same object / None / bare builtin) differs from Model/Containers.v"),
     11: ("model", "the new object (class, attributes, ballots) differs from Model/Containers.v"),
     12: ("model", "the current object after the operation differs from Model/Containers.v"),
@@ -32,7 +34,9 @@ RULE = ("start object of one of the 20 container classes (Instance, 4 ballot cla
         "as_multiprofile, construction of every OTHER class of the family that accepts the object (all 44 accepted ballot class "
         "pairs incl. frozen<->mutable and cross-kind, the 8 list profile <-> multiprofile pairs; each pair enumerated at the head of "
         "every run), construction from the bare builtin copy, satisfaction profiles of profiles, remove_satisfied, "
-        "attribute-neutral builtin mutators and clear for every class, and the mutators append/insert/extend/+=/item and slice assignment/setdefault/update with "
+        "attribute-neutral builtin mutators and clear for every class; after EVERY derivation an aliasing probe rebinds "
+        "each attribute of the derived object (and of the source) to a fresh value and grows each payload, and checks "
+        "the other object is unchanged; and the mutators append/insert/extend/+=/item and slice assignment/setdefault/update with "
         "right-typed, sub-typed, wrong-typed, frozen-vs-mutable and non-ballot elements; construction from the object "
         "with an explicit ballot_validation flag (off->on, on->off) from unvalidated profiles that already hold "
         "foreign ballots; the linked Instance has 0/1/3 projects at creation and is emptied / refilled in place "
@@ -369,8 +373,8 @@ KIND = {"raise": 0, "new": 1, "same": 2, "none": 3, "plain": 4}
 
 
 def coq_case(case, o):
-    steps = lst(["mkStep %s %s %s" % (core.nat(KIND[s["kind"]]), coq_obj(s.get("res")), coq_obj(s["cur"]))
-                 for s in o["steps"]])
+    steps = lst(["mkStep %s %s %s %s" % (core.nat(KIND[s["kind"]]), coq_obj(s.get("res")), coq_obj(s["cur"]),
+                                        boolc(bool(s.get("alias")))) for s in o["steps"]])
     return "(mkCase %s %s %s %s %s %s)" % (natl(o["elt_tags"]), natl(case["start"]["attrs"]), coq_obj(o["start"]),
                                             coq_obj(o["other"]), lst(case["ops"], coq_op), steps)
 
